@@ -23,7 +23,7 @@ MODES = [
     {"mode": "inj", "extract": "Extract_LocksInj.v", "model": "Model/LocksInj.v", "what": "cds::sync::injecting_monitor", "anchor": "cds/sync/injecting_monitor.h"},
     {"mode": "pool", "extract": "Extract_PoolMon.v", "model": "Model/PoolMon.v", "what": "cds::sync::pool_monitor", "anchor": "cds/sync/pool_monitor.h"},
 ]
-QUICK_N = {"spin": 300, "re": 500, "arr": 400, "inj": 200, "pool": 600}
+QUICK_N = {"spin": 200, "re": 400, "arr": 300, "inj": 150, "pool": 450}
 SPIN_FUEL = 4000
 
 
@@ -160,7 +160,7 @@ def run_impl(ctx, impl, mode, cases, tag, timeout=90, depth=0):
     for k, c in enumerate(cases):
         if c["id"] in logs and logs[c["id"]]["end"] is not None:
             last = k
-    if 0 <= last < len(cases) - 1 and depth < 6 and bad_end(logs[cases[last]["id"]]):
+    if 0 <= last < len(cases) - 1 and depth < 3 and bad_end(logs[cases[last]["id"]]):
         more, _ = run_impl(ctx, impl, mode, cases[last + 1:], tag + "r", timeout, depth + 1)
         logs.update(more)
     return logs, status
@@ -171,7 +171,7 @@ def bad_end(ilog):
     for x in (ilog or {}).get("extra", []):
         t = x.split()
         if t[:2] == ["monitor", "crashed"]: return "crashes (signal %s)" % t[2]
-        if t[:2] == ["monitor", "hung"]: return "hangs (a lock is never released, or livelock; no progress within 10 s)"
+        if t[:2] == ["monitor", "hung"]: return "hangs (a lock is never released, or livelock; no progress within 5 s)"
     return None
 
 
@@ -315,8 +315,8 @@ def check_mode(ctx, p, impl, stats):
     st = stats.setdefault(mode, {"cases": 0, "corpus": ncorpus, "diverged": 0, "steps": 0, "contended": 0, "distinct_logs": 0, "distinct_contended": 0,
                                  "features": {}, "sched_kinds": {}, "monitor_violations": 0})
     shapes = set(); cshapes = set(); first_div = None; found_real = False
-    if status != "ok":
-        # the harness died or hangs: the first case without a complete log is the failing input
+    if status != "ok" and not any(bad_end(ilog.get(c["id"])) for c in cases):
+        # the harness died or hangs without dumping a log: the first case without a complete log is the failing input
         bad = next((c for c in cases if c["id"] not in ilog or ilog[c["id"]]["end"] is None), None)
         if bad is not None:
             one, st1 = run_impl(ctx, impl, mode, [bad], "crash_" + mode, timeout=20)
@@ -425,8 +425,11 @@ def run(ctx):
     if ctx.replay:
         replay(ctx, impl)
     else:
+        ctx.log("coq obligations built (ok=%s), harness built" % res.ok)
         preps = [prepare_mode(ctx, md) for md in MODES]
+        ctx.log("models built, %d cases generated" % sum(len(p["cases"]) for p in preps))
         run_all(ctx, impl, preps)
+        ctx.log("model and implementation runs finished")
         for p in preps:
             s = check_mode(ctx, p, impl, stats)
             if s is not None:
